@@ -229,7 +229,7 @@ def gen_history(rng, cat, modifiers, tier):
             e = rng.choice(modifiers)
             args = {}
             if e == 'assign_connectivity':
-                args = {'kind': rng.choice(['roll', 'swap01', 'swap_first'])}
+                args = {'kind': rng.choice(['roll', 'swap01', 'swap_first', 'same_array', 'same_array_rows'])}
             if e in ('rotation', 'translation'):
                 args = {'reset': rng.random() < 0.6}
             hist.append(e_op(o, e, args))
@@ -642,9 +642,10 @@ def witness_histories(ctx, fails, cat, cfgq, effects):
                         for kw2 in cat.get(a, (ALL, [{}]))[1]:
                             out.append((f, [{'op': 'new', 'o': 0, 'mesh': m}, q_op(0, a, kw2), e_op(0, b, args)]))
                     if b == 'assign_connectivity':
-                        h2 = [{'op': 'new', 'o': 0, 'mesh': m}, q_op(0, a, kw),
-                              e_op(0, b, {'kind': 'swap01'}), q_op(0, a, kw)]
-                        out.append((f, h2))
+                        for knd in ('swap01', 'same_array', 'same_array_rows'):
+                            h2 = [{'op': 'new', 'o': 0, 'mesh': m}, q_op(0, a, kw),
+                                  e_op(0, b, {'kind': knd}), q_op(0, a, kw)]
+                            out.append((f, h2))
         elif k == 'slot-key':
             for (v1, v2) in ARG_VALUES.get(b, [('A', 'B')]):
                 for m in mesh_for(a, arg=b):
